@@ -1,17 +1,23 @@
 use crate::report::Report;
 use crate::Ctx;
 
+pub mod c08;
+pub mod c09;
 pub mod c10;
 pub mod c11;
+pub mod c16;
 pub mod c20;
 pub mod probe;
 
 pub fn run(engine: &str, ctx: &Ctx) -> Option<Report> {
     let mut rep = Report::new(engine);
     match engine {
+        "c08" => c08::run(ctx, &mut rep),
+        "c09" => c09::run(ctx, &mut rep),
         "c10" => c10::run(ctx, &mut rep),
         "c11" => c11::run(ctx, &mut rep),
         "probe" => probe::run(ctx, &mut rep),
+        "c16" => c16::run(ctx, &mut rep),
         "c20" => c20::run(ctx, &mut rep),
         _ => return None,
     }
